@@ -6,6 +6,7 @@ re-executed from the start for it. That keeps the interpreter in direct style (n
 """
 
 import ast
+import os
 import z3
 
 from .core import (
@@ -20,6 +21,57 @@ from .source import loops_of, assigned_names
 # ---------------------------------------------------------------------------------------------
 # control-flow signals
 # ---------------------------------------------------------------------------------------------
+
+_QF = {}        # ast id -> term (kept alive) for subterms known to be free of forall/exists
+
+
+def has_quantifier(e):
+    """does the formula contain a forall/exists (lambdas do not count)"""
+    stack = [e]
+    visited = []
+    found = False
+    seen = set()
+    while stack:
+        x = stack.pop()
+        i = x.get_id()
+        if i in _QF or i in seen:
+            continue
+        seen.add(i)
+        visited.append(x)
+        if z3.is_quantifier(x):
+            if not x.is_lambda():
+                found = True
+                break
+            stack.append(x.body())
+        elif z3.is_app(x):
+            n = x.num_args()
+            for j in range(n):
+                stack.append(x.arg(j))
+    if not found:
+        for x in visited:
+            _QF[x.get_id()] = x
+    return found
+
+
+def split_fact(f, hyp=None):
+    """Split a fact into conjuncts, distributing implications over conjunctions in the consequent (so that
+    quantified conjuncts can be separated from quantifier-free ones)."""
+    if not has_quantifier(f):
+        return [f if hyp is None else z3.Implies(hyp, f)]
+    if z3.is_and(f):
+        out = []
+        for c in f.children():
+            out.extend(split_fact(c, hyp))
+        return out
+    if z3.is_implies(f):
+        p, q = f.children()
+        return split_fact(q, p if hyp is None else z3.And(hyp, p))
+    if z3.is_or(f) and len(f.children()) == 2 and z3.is_not(f.children()[0]):
+        # simplify() turns p => q into (not p) or q
+        p, q = f.children()[0].children()[0], f.children()[1]
+        return split_fact(q, p if hyp is None else z3.And(hyp, p))
+    return [f if hyp is None else z3.Implies(hyp, f)]
+
 
 class PyRaise(Exception):
     def __init__(self, exc):
@@ -133,6 +185,8 @@ class Engine:
             decisions = self.worklist.pop()
             ctx = Ctx(self, decisions)
             self.stats['paths'] += 1
+            if os.environ.get('PYVC_DEBUG') and self.stats['paths'] % 10 == 0:
+                print('[pyvc]', self.stats, 'worklist', len(self.worklist), 'obligations', len(self.obligations), flush=True)
             if self.stats['paths'] > max_paths:
                 raise OutOfReach(f'more than {max_paths} paths')
             try:
@@ -177,6 +231,8 @@ class Ctx:
         self.bounded = False
         self.closures = {}       # concrete fid -> Obj
         self.depth = 0
+        self.quantified = 0
+        self.owned = []          # refs (z3 Int terms) of containers allocated by the verified code that have not escaped
 
     # -- fresh symbols ---------------------------------------------------------------------
     def fresh(self, prefix, sort):
@@ -195,15 +251,31 @@ class Ctx:
         fact = z3.simplify(fact)
         if is_t(fact):
             return
+        parts = split_fact(fact)
+        if len(parts) > 1:
+            for p in parts:
+                self.assume(p)
+            return
         self.pc.append(fact)
+        # quantified facts are kept for the obligations but not given to the branch-feasibility solver: it mostly
+        # answers "sat", the direction in which quantifiers make z3 give up; dropping them only over-approximates
+        # feasibility (sound)
+        if has_quantifier(fact):
+            self.quantified += 1
+            return
         self.solver.add(fact)
 
     def feasible(self, cond):
+        import time as _t
         self.engine.stats['branch_checks'] += 1
+        t0 = _t.time()
         self.solver.push()
         self.solver.add(cond)
         r = self.solver.check()
         self.solver.pop()
+        self.engine.stats['branch_s'] = self.engine.stats.get('branch_s', 0.0) + (_t.time() - t0)
+        if r == z3.unknown:
+            self.engine.stats['branch_unknown'] = self.engine.stats.get('branch_unknown', 0) + 1
         return r != z3.unsat
 
     def must(self, cond):
@@ -306,16 +378,56 @@ class Ctx:
     def alloc_list(self, items):
         els = z3.K(Int, VNone)
         for ix, item in enumerate(items):
-            els = z3.Store(els, ix, self.to_term(item))
+            els = z3.Store(els, ix, self.stored(item))
         ref, self.heap = self.heap.new_list(z3.IntVal(len(items)), els)
+        self.owned.append(('l', z3.simplify(ref)))
         return VList(ref)
 
     def alloc_dict(self, pairs):
         ref, self.heap = self.heap.new_dict_empty()
         for k, v in pairs:
             kt = k if z3.is_expr(k) else z3.StringVal(k)
-            self.heap = self.heap.dset(ref, kt, self.to_term(v))
+            self.heap = self.heap.dset(ref, kt, self.stored(v))
+        self.owned.append(('d', z3.simplify(ref)))
         return VDict(ref)
+
+    def stored(self, val):
+        """the term of a value that is being stored into the heap: the value escapes"""
+        t = self.to_term(val)
+        self.escape_term(t)
+        return t
+
+    def escape_term(self, t):
+        if not self.owned:
+            return
+        t = z3.simplify(t)
+        if z3.is_app(t) and t.decl().kind() == z3.Z3_OP_DT_CONSTRUCTOR and t.decl().name() in ('VList', 'VDict'):
+            kind = 'l' if t.decl().name() == 'VList' else 'd'
+            ref = z3.simplify(t.arg(0))
+            self.owned = [(k, r) for k, r in self.owned if not (k == kind and r.eq(ref))]
+        # any other term is a value loaded from the heap, an input or a callee result: by the ownership argument
+        # (an unescaped temporary is not stored anywhere and was allocated after every input) it cannot denote an
+        # owned temporary
+
+    def escape(self, val):
+        if isinstance(val, (S,)):
+            self.escape_term(val.t)
+        elif isinstance(val, Obj) and val.kind == 'tuple':
+            for x in val.f['items']:
+                self.escape(x)
+
+    def keep_owned(self, old, new):
+        """new heap after a havoc: owned (unescaped) temporaries keep their contents"""
+        if not self.owned:
+            return new
+        r = z3.Int('r!own')
+        isl = z3.Or([r == ref for k, ref in self.owned if k == 'l']) if any(k == 'l' for k, _ in self.owned) else z3.BoolVal(False)
+        isd = z3.Or([r == ref for k, ref in self.owned if k == 'd']) if any(k == 'd' for k, _ in self.owned) else z3.BoolVal(False)
+
+        def m(cond, o, n):
+            return z3.Lambda([r], z3.If(cond, z3.Select(o, r), z3.Select(n, r)))
+        return Heap(m(isl, old.LEN, new.LEN), m(isl, old.ELS, new.ELS), m(isd, old.HAS, new.HAS),
+                    m(isd, old.VAL, new.VAL), m(isd, old.NK, new.NK), m(isd, old.KEY, new.KEY), new.alloc)
 
     def loaded(self, term):
         """A value just read from the heap: add its well-formedness instance."""
@@ -427,6 +539,9 @@ class Interp:
             cache[key] = ('busy',)
             frame = Frame(module, f'{module}.<module>', {'__parent__': None})
             val = self.models.eval_module_const(self, frame, name, node)
+            if isinstance(val, C) and isinstance(val.py, dict):
+                from .models_calls import TABLE_NAMES
+                TABLE_NAMES[id(val.py)] = f'{module}.{name}'
             cache[key] = val
         val = cache[key]
         if isinstance(val, tuple) and val == ('busy',):
